@@ -7,6 +7,7 @@ LEVEL = 'other'
 def build(ctx):
     from contracts import frames
     frames.obligations_frames(ctx, 'asm')
+    ctx.task('contracts.reader:task_reader')
     # dynamic frames: every mutation observed while the real pass bodies run symbolically
     common.pass_tasks(ctx, ['resolve_constants', 'resolve_labels', 'resolve_register_aliases', 'transform_compressible',
                             'transform_pseudo_instructions', 'resolve_aligns', 'resolve_immediates'])
